@@ -13,6 +13,9 @@ type G struct {
 	big      int // boundary-size fields still allowed in this packet
 }
 
+// NewG makes a generator with a budget of boundary-size values (16383..65535 bytes).
+func NewG(t *sim.Tape, thorough bool, big int) *G { return &G{T: t, Thorough: thorough, big: big} }
+
 var boundary = []int{127, 128, 129, 255, 256, 16383, 16384, 65534, 65535}
 
 // Len draws a string/binary length: mostly short, sometimes on a boundary.
